@@ -65,7 +65,7 @@ def argparse_options(ctx: Ctx) -> Dict[str, dict]:
 
 
 def rule_optflow1(ctx: Ctx) -> RuleResult:
-    rr = RuleResult("OPTFLOW-1", "every command-line option is read from the parsed namespace, and nothing else is", floor=17)
+    rr = RuleResult("OPTFLOW-1", "every command-line option is read from the parsed namespace, and nothing else is", floor=12)
     opts = argparse_options(ctx)
     if len(opts) < 10:
         raise AnalysisError(f"OPTFLOW-1: only {len(opts)} add_argument calls recognised")
@@ -317,7 +317,7 @@ class Flow:
 
 def rule_optflow2(ctx: Ctx) -> RuleResult:
     rr = RuleResult("OPTFLOW-2/5", "every option value reaches its library parameter, independently of other options",
-                    floor=17)
+                    floor=12)
     opts = argparse_options(ctx)
     fl = Flow(ctx)
     for dest in sorted(opts):
@@ -604,7 +604,7 @@ def _stage_sequence(ctx: Ctx, f: FuncInfo) -> List[Tuple[str, ast.Call]]:
 
 def rule_stage_same(ctx: Ctx) -> RuleResult:
     rr = RuleResult("STAGE-1/SAME-1", "run() executes the library pipeline in order, once, and writes what it would print",
-                    floor=7)
+                    floor=6)
     run = ctx.prog.func(CLI, "Cli.run")
     cfg = ctx.cfg(run)
     dom = cfg.dominators()
@@ -688,7 +688,7 @@ def rule_stage_same(ctx: Ctx) -> RuleResult:
 
 
 def rule_seq1(ctx: Ctx) -> RuleResult:
-    rr = RuleResult("SEQ-1", "samples reach generate() in argument order, none skipped", floor=4)
+    rr = RuleResult("SEQ-1", "samples reach generate() in argument order, none skipped", floor=3)
     sm = ctx.prog.func(CLI, "Cli.setup_models_data")
     cfg = ctx.cfg(sm)
     ORDER_CHANGING = {"sorted", "set", "frozenset", "reversed", "OrderedSet", "dict.fromkeys", "random.shuffle", "Counter"}
